@@ -13,7 +13,8 @@ while age <= itsGnLifetimeLocTE, keeps an entry stamped ahead of the clock inste
 is fed a clock of millisecond resolution (or is harmless under the ahead alternative), and TST.__sub__ is the
 difference modulo 2^32 on every cell (expiry); that get_entry / get_neighbours hand out only entries on which the
 predicate held - decided on the must-facts or, where nested ifs separate the cases, path by path: on every path to
-the return the entry was found None or the predicate was true on it (purge-on-read).
+the return the entry was found None or the predicate was true on it (purge-on-read); that the table's key class compares
+by value and its hash depends on nothing its equality ignores (key-identity).
 Does not decide entry presence over histories with clock advances as values, nor PDR arithmetic.
 """
 from __future__ import annotations
@@ -353,6 +354,8 @@ def run(ctx):
                                       + (" (harmless under the ahead-of-clock alternative)" if ahead else
                                          ": every entry stamped later in the current second is 'ahead' and is purged")) +
                f" [{'; '.join(r[:70] for r in resolved)}]", loc)
+    key_identity(ctx)
+    ctx.floor("C08.key-identity", 2)
     # ---- purge on read
     for name in ("get_entry", "get_neighbours"):
         f = P.func(f"{LT}.{name}")
@@ -361,6 +364,77 @@ def run(ctx):
                f"{name} " + ("applies the expiry predicate before answering" if ok else
                              f"returns entries without applying the expiry predicate ({why}): an expired station stays visible (and a "
                              "neighbour) until the next reception triggers refresh_table"), f.loc)
+
+
+def _self_fields(cls: ClassInfo, fn: FuncInfo, seen=None) -> set:
+    """First-level instance fields a method reads through its first parameter, followed through calls of methods of the
+    same class on it (encode_to_int() reads what it reads)."""
+    seen = set() if seen is None else seen
+    if fn.qual in seen or not fn.params:
+        return set()
+    seen.add(fn.qual)
+    me, out = fn.params[0], set()
+    called = set()
+    for n in ast.walk(fn.node):
+        if isinstance(n, ast.Attribute) and isinstance(n.value, ast.Name) and n.value.id == me:
+            m = cls.find_method(n.attr)
+            if m is not None:
+                called.add(n.attr)
+                out |= _self_fields(cls, m, seen)
+            else:
+                out.add(n.attr)
+    return out
+
+
+def key_identity(ctx) -> None:
+    """The location table (and the location-service buffers) are dictionaries keyed by GNAddress objects that are decoded
+    anew from every packet.  `S is present with the most recent PV` then needs value equality on the key, and a hash that
+    depends on nothing the equality ignores: otherwise two addresses the stack itself calls equal land in different
+    buckets, the lookup for S misses and S gets a second, stale entry (or its buffered packets are never flushed)."""
+    P = ctx.prog
+    lt = P.cls(LT)
+    init = lt.find_method("__init__")
+    key_classes = []
+    for n in ast.walk(init.node):
+        if isinstance(n, ast.AnnAssign) and dotted(n.target) == "self.loc_t" and isinstance(n.annotation, ast.Subscript):
+            sl = n.annotation.slice
+            k = sl.elts[0] if isinstance(sl, ast.Tuple) and sl.elts else None
+            r = P.resolve_expr_entity(lt.module, k) if k is not None else None
+            if isinstance(r, ClassInfo):
+                key_classes.append(r)
+    if not key_classes:
+        raise AnalysisError("C08: the key type of LocationTable.loc_t is no longer declared (dict[<class>, ...] annotation in __init__)")
+    for kc in key_classes:
+        eq, hs = kc.methods.get("__eq__"), kc.methods.get("__hash__")
+        declared = set(kc.fields)
+        kloc = f"{kc.module.rel}:{kc.node.lineno}"
+        if eq is not None:
+            other = eq.params[1] if len(eq.params) > 1 else None
+            e_fields = _self_fields(kc, eq) & (declared or _self_fields(kc, eq))
+            value_eq = bool(e_fields) and other is not None
+            e_txt = "explicit __eq__ on {" + ", ".join(sorted(e_fields)) + "}"
+        elif kc.dataclass:
+            e_fields, value_eq, e_txt = set(declared), True, "dataclass equality on all fields"
+        else:
+            e_fields, value_eq, e_txt = set(), False, "identity (no __eq__)"
+        if hs is not None:
+            h_fields, hashable = _self_fields(kc, hs) & (declared or _self_fields(kc, hs)), True
+            h_txt = "explicit __hash__ on {" + ", ".join(sorted(h_fields)) + "}"
+        elif kc.dataclass and kc.frozen:
+            h_fields, hashable, h_txt = set(declared), True, "generated dataclass hash on all fields {" + ", ".join(sorted(declared)) + "}"
+        elif eq is None and not kc.dataclass:
+            h_fields, hashable, h_txt = set(), True, "identity hash"
+        else:
+            h_fields, hashable, h_txt = set(), False, "no __hash__ (defining __eq__ without it makes the class unhashable)"
+        ctx.ob("C08.key-identity", kc.qual[10:], "value-equality", value_eq,
+               f"table keys compare by value: {e_txt}" if value_eq else
+               f"table keys compare by {e_txt}: an address decoded from the next packet of the same station never equals the stored key", kloc)
+        ok = hashable and h_fields <= e_fields if value_eq else hashable
+        ctx.ob("C08.key-identity", kc.qual[10:], "hash-agrees-with-eq", ok,
+               f"{h_txt} depends only on what the equality compares ({e_txt})" if ok else
+               f"{h_txt}, but {e_txt}: two addresses of one station (same MID, different M / ST bits) are equal and hash differently, "
+               "so the dictionary lookup for a known station misses - a second entry is created and the first keeps a stale position "
+               "vector; the location-service buffers keyed the same way are never flushed", kloc)
 
 
 def _disjuncts(node: ast.AST, pol: bool) -> list:
